@@ -154,7 +154,15 @@ static void ep_curve_set_map(void) {
 				fp_add(c3, c2, c3);           /* c3 = 3 * u^2 + 4 * a */
 				fp_neg(c3, c3);               /* c3 = -(3 * u^2 + 4 * a) */
 				fp_mul(c2, c3, c0);           /* c2 = -g(u) * (3 * u^2 + 4 * a) */
-			} while (fp_is_zero(c2) || !fp_is_sqr(c2));
+
+				/* At least one of g(u) and g(-u/2) must be a square, or the
+				 * exceptional inputs of the map have no image. */
+				fp_sqr(c4, c1);
+				fp_add(c4, c4, ctx->ep_a);
+				fp_mul(c4, c4, c1);
+				fp_add(c4, c4, ctx->ep_b);
+			} while (fp_is_zero(c2) || !fp_is_sqr(c2) ||
+					(!fp_is_sqr(c0) && !fp_is_sqr(c4)));
 			if (!fp_srt(c2, c2)) {        /* c2 = sqrt(-g(u) * (3 * u^2 + 4 * a)) */
 				RLC_THROW(ERR_NO_VALID);
 			}
